@@ -307,7 +307,8 @@ class Runner:
             elif how == "octets":
                 oid = req.oids[0] + (1,) if req.oids else (1, 3, 6, 1, 2, 1, 1, 1, 0)
                 payload = bytes((i * 7 + 3) & 0xFF for i in range(act[3]))
-                rep = drivers.reply_for(s.cfg, req, [(oid, rb.enc_octets(payload))])
+                extra = {"pad": (act[4], False)} if len(act) > 4 and s.cfg.version == "v3" and s.cfg.priv else {}
+                rep = drivers.reply_for(s.cfg, req, [(oid, rb.enc_octets(payload))], **extra)
             else:
                 oid = req.oids[0] + (1,) if req.oids else (1, 3, 6, 1, 2, 1, 1, 1, 0)
                 rep = drivers.reply_for(s.cfg, req, [(oid, rb.enc_int(s.reply_no))], boots=boots, time=time)
